@@ -132,6 +132,12 @@ def check(ctx: Ctx) -> None:
                        f"{short}.{name} carries validate={norm(kw.value)}: the schema refuses values the model (and ahbicht itself) can hold, so such objects dump but do not load again",
                        file=scls.file, line=kw.value.lineno)
             if name in mf:
+                ann0 = str(mf[name]["annotation"]).replace("Optional[", "").rstrip("]") if str(mf[name]["annotation"]).startswith("Optional[") else str(mf[name]["annotation"])
+                want_type = ("Boolean" if ann0 == "bool" else "String" if ann0 == "str" else "Dict" if ann0.startswith("Dict") else "List" if ann0.startswith("List")
+                             else "UUID" if ann0 == "UUID" else "Nested")
+                ctx.ob("C19.type", f"{short}.{name}", info["type"] == want_type,
+                       f"{short}.{name} is fields.{info['type']} but the model field is {mf[name]['annotation']} (expected fields.{want_type}): values change their type in a round trip",
+                       file=scls.file, line=info["node"].lineno)
                 may_be_none = bool(mf[name]["optional"] or mf[name]["validator_optional"])
                 ctx.count()
                 if may_be_none:
